@@ -530,10 +530,12 @@ class Checker(CommandMixin):
         # C16: rounding of whatever was written
         if self.blur:
             b = self.blur
+            # which record belongs to which retirement is C15's business: here a row
+            # is fine if it is the rounding of the start of *some* object retired now
             for r in new_np:
-                self._blur_row(ev, "nameplates.started", r[2], [t for (a, u, t) in exp_np if a == r[1]], b)
+                self._blur_row(ev, "nameplates.started", r[2], [t for (a, u, t) in exp_np], b)
             for r in new_mb:
-                trues = [t for (a, f, u, t) in exp_mb if a == r[1]]
+                trues = [t for (a, f, u, t) in exp_mb]
                 if transient and not trues:
                     trues = [when]
                 self._blur_row(ev, "mailboxes.started", r[3], trues, b)
